@@ -152,7 +152,11 @@ pub fn render(s: &TypeSpec) -> Option<Rendered> {
 }
 
 pub fn run(ctx: &Ctx) -> i32 {
-    let b = Behaviour {
+    crate::props::behave::run(ctx, &behaviour())
+}
+
+pub fn behaviour() -> Behaviour {
+    Behaviour {
         prop: "C04",
         rule: "enums over variant shapes x payload types (niches: bool, char, references, NonZero, Option, nested enum; zero-sized; wide) x repr (none, \
                every primitive, C, `C, u8`, align(N)) x explicit discriminants (edges of the repr range, negative, non-monotonic) x variant counts \
@@ -168,6 +172,5 @@ pub fn run(ctx: &Ctx) -> i32 {
         thorough: 6000,
         batch: 20,
         assumptions: &["layout-dependent behaviour is observed on x86-64 only; the debug build turns misaligned reads into aborts"],
-    };
-    crate::props::behave::run(ctx, &b)
+    }
 }
